@@ -17,7 +17,7 @@ let to_call (x : c) : call =
   { c_op = o; c_res = r; c_inv = nat_of_int x.inv; c_ret = nat_of_int x.ret }
 
 (* untrusted search over an int-keyed assoc state *)
-let search (h : c array) : int list option =
+let search (init : (int * int) list) (h : c array) : int list option =
   let n = Array.length h in
   let seen = Hashtbl.create 1024 in
   let rec go (donemask : int) (state : (int * int) list) (acc : int list) : int list option =
@@ -51,27 +51,31 @@ let search (h : c array) : int list option =
         !res
       end
     end in
-  go 0 [] []
+  go 0 (List.sort compare init) []
 
 let () =
   let cur = ref [] in
+  let init = ref [] in
   let total = ref 0 and bad = ref 0 in
   (try while true do
     let line = input_line stdin in
     match split_on ' ' line with
-    | ["H"] -> cur := []
+    | ["H"] -> cur := []; init := []
+    | "X" :: _ -> cur := []; init := []
+    | ["J"; k; v] -> init := (int_of_string k, int_of_string v) :: !init
     | ["C"; _; op; key; vl; ok; got; inv; ret] ->
       cur := { op = op.[0]; key = int_of_string key; vl = int_of_string vl; ok = ok = "1"; got = int_of_string got;
                inv = int_of_string inv; ret = int_of_string ret } :: !cur
-    | ["Z"] ->
+    | ["Z"] | ["Y"] ->
       incr total;
       let h = Array.of_list (List.rev !cur) in
       if Array.length h > 60 then print_endline "TOOLONG"
-      else (match search h with
+      else (match search !init h with
         | None -> incr bad; print_endline "NONLIN no witness order exists"
         | Some order ->
           let hc = Array.to_list (Array.map to_call h) in
-          if lin_ok [] hc (List.map nat_of_int order) then print_endline "ok"
+          let init_m = List.map (fun (k, v) -> ([z_of_int k], zbytes v)) !init in
+          if lin_ok init_m hc (List.map nat_of_int order) then print_endline "ok"
           else begin incr bad; print_endline "NONLIN witness rejected by the verified validator" end)
     | _ -> ()
   done with End_of_file -> ());
